@@ -37,6 +37,60 @@ def colour_on_trace(b, ex, bb, colour, colours):
     return poss & {swap.get(c, c) for c in opp}
 
 
+class AttackTest:
+    """The square-attack test: the function is_check hands the king square to.  It is looked up by
+    name when the reference name exists, else by role (the one crate-local fn(&BoardState, PieceColor,
+    Point) -> bool, in any parameter order, that is_check calls).  `polarity` says what its colour
+    parameter means, read off the body: 'defender' if every attacking piece is built with
+    opposite(param), 'attacker' if with the parameter itself, None if mixed."""
+
+    def __init__(self, f):
+        self.name = ICC
+        if not f.has_body(ICC):
+            raw = f.d["bodies"].get(IS_CHECK)
+            cands = set()
+            for blk in (raw or {}).get("blocks", []):
+                t = blk["term"]
+                c = t.get("resolved") or t.get("callee") if t["k"] == "call" else None
+                cb = f.d["bodies"].get(c) if c else None
+                if cb is None or cb.get("kind") not in ("Fn", "AssocFn"):
+                    continue
+                tys = sorted(l["ty"] for l in cb["locals"][1:cb["arg_count"] + 1])
+                if tys == sorted(["&board::BoardState", "board::PieceColor", "board::Point"]) and cb["locals"][0]["ty"] == "bool":
+                    cands.add(c)
+            if len(cands) != 1:
+                raise AnchorMissing("square-attack test not found: no `%s` and is_check calls %d candidate functions" % (ICC, len(cands)))
+            self.name = next(iter(cands))
+        b = xbody(f, self.name)
+        ex = Exprs(b)
+        self.board, self.color, self.sq = _params(b)
+        cols = set()
+        for bb, t in b.iter_calls():
+            if callee_of(t) in PIECE_CTORS:
+                cols.add(strip_refs(ex.call_args(bb)[0]))
+        me = ("arg", self.color)
+        self.polarity = "defender" if cols == {("call", OPPOSITE, (me,), None)} else "attacker" if cols == {me} else None
+
+    def attacker_expr(self):
+        me = ("arg", self.color)
+        return me if self.polarity == "attacker" else ("call", OPPOSITE, (me,), None)
+
+    def attackers(self, param_values):
+        """Possible attacker colours given the possible values of the colour parameter."""
+        swap = {"White": "Black", "Black": "White"}
+        return set(param_values) if self.polarity == "attacker" else {swap.get(c, c) for c in param_values}
+
+    def colour_arg_for(self, defender):
+        """The colour a caller must pass to ask 'is a square of `defender` attacked'."""
+        return defender if self.polarity != "attacker" else {"White": "Black", "Black": "White"}[defender]
+
+
+def attack_test(f):
+    if "_attack_test" not in f.__dict__:
+        f.__dict__["_attack_test"] = AttackTest(f)
+    return f.__dict__["_attack_test"]
+
+
 def deciders(b, ex):
     """(loc, expr) of every expression that decides the result: switch conditions and
     non-constant values assigned to the return place."""
@@ -54,11 +108,13 @@ def deciders(b, ex):
 
 def r1_3(ctx):
     f = ctx.facts
-    b = xbody(f, ICC)
-    ctx.note_fn(ICC)
+    T = attack_test(f)
+    b = xbody(f, T.name)
+    ctx.note_fn(T.name)
     ex = Exprs(b)
     board, color, sq = _params(b)
     colours = f.enum_variant_by_discr("board::PieceColor")
+    kind_names = f.enum_variant_by_discr("board::PieceKind")
     classes = {}
     king = []
     for loc, e in deciders(b, ex):
@@ -67,6 +123,12 @@ def r1_3(ctx):
         for x in sl:
             if x[0] == "call" and x[1] in PIECE_CTORS:
                 kinds.add(PIECE_CTORS[x[1]])
+        # a structural test: `match blocker.kind { Queen => .., Rook if .. => .., _ => .. }` decides on
+        # the kinds it names
+        if e[0] == "discr" and "PieceKind" in str(e[2]) and b.term(loc[0])["k"] == "switch" and loc == b.term_loc(loc[0]):
+            for v, tg in b.term(loc[0])["cases"]:
+                if v in kind_names and b.blocks[tg]["term"]["k"] != "unreachable":
+                    kinds.add(kind_names[v].lower())
         has_king = any(x[0] == "field" and x[2] in KING_FIELDS for x in sl)
         dep_sq = any(x == ("arg", sq) for x in sl)
         for kd in kinds:
@@ -114,10 +176,10 @@ def r1_3(ctx):
             fname = p["proj"][k]["name"]
             nreads += 1
             owner = KING_FIELDS[fname]
-            poss = colour_on_trace(b, ex, loc[0], ("arg", color), colours)
-            ok = poss == ({"White", "Black"} - {owner})
+            poss = T.attackers(colour_on_trace(b, ex, loc[0], ("arg", color), colours))
+            ok = poss == {owner}
             ctx.ob("is_check_cords:king-class:enemy-field:%s" % fname, ok, b.where(loc),
-                   "reads %s's king square where the defender colour may be %s; it must be read only when the defender is the other colour" % (owner, sorted(poss)))
+                   "reads %s's king square where the attacking colour may be %s; it must be read only when %s is the attacker" % (owner, sorted(poss), owner))
     ctx.floor("king square reads", nreads, 1)
 
 
@@ -138,7 +200,8 @@ def r6_1(ctx):
     selects the square all reduce to the one call that is feasible for C)."""
     from wa.cond import specialise
     f = ctx.facts
-    b0 = xbody(f, IS_CHECK)
+    T = attack_test(f)
+    b0 = xbody(f, IS_CHECK, keep={T.name})
     ctx.note_fn(IS_CHECK)
     colours = f.enum_variant_by_discr("board::PieceColor")
     cp = [i for i in range(1, b0.arg_count + 1) if b0.local_ty(i) == "board::PieceColor"][0]
@@ -146,24 +209,28 @@ def r6_1(ctx):
     seen = set()
     for cname in sorted(colours.values()):
         b, ex, dead = specialise(b0, {("arg", cp): ("eq", cname)}, {("arg", cp): colours})
-        calls = list(b.iter_calls(callee=ICC))
+        calls = list(b.iter_calls(callee=T.name))
         okall = bool(calls)
         where = b.file
         detail = []
+        want_c = T.colour_arg_for(cname)
         for bb, t in calls:
             args = ex.call_args(bb)
-            ca = strip_refs(args[1])
-            sq = strip_refs(args[2])
-            okc = ca == ("arg", cp) or (ca[0] == "agg" and ca[2] == cname)
+            ca = strip_refs(args[T.color - 1])
+            sq = strip_refs(args[T.sq - 1])
+            # the colour passed, as a value under the hypothesis colour == cname
+            cv = cname if ca == ("arg", cp) else {"White": "Black", "Black": "White"}[cname] if ca == ("call", OPPOSITE, (("arg", cp),), None) else ca[2] if ca[0] == "agg" else None
+            okc = cv == want_c
             oks = sq[0] == "field" and sq[2] == "%s_king_location" % cname.lower() and strip_refs(sq[1]) == ("arg", bp)
-            okb = strip_refs(args[0]) == ("arg", bp)
+            okb = strip_refs(args[T.board - 1]) == ("arg", bp)
             okall = okall and okc and oks and okb
             where = b.where(b.term_loc(bb))
-            detail.append("is_check_cords(%s, %s, %s)" % (show_expr(strip_refs(args[0]), b), show_expr(ca, b), show_expr(sq, b)))
+            detail.append("%s(board=%s, colour=%s, square=%s)" % (T.name.split("::")[-1], show_expr(strip_refs(args[T.board - 1]), b), show_expr(ca, b), show_expr(sq, b)))
         if okall:
             seen.add(cname)
         ctx.ob("is_check:%s" % cname, okall, where,
-               "on the trace colour=%s: %s; must probe that colour's own king square" % (cname, "; ".join(detail) or "no is_check_cords call"))
+               "on the trace colour=%s: %s; must probe that colour's own king square%s" % (
+                   cname, "; ".join(detail) or "no call of the square-attack test", " (the test's colour parameter is the attacker)" if T.polarity == "attacker" else ""))
     ctx.ob("is_check:both-colours", seen == {"White", "Black"}, b0.file, "colours handled: %s" % sorted(seen))
 
 
@@ -201,41 +268,231 @@ def _piece_tests(b, ex, blocks):
     return res
 
 
+class Undecided(Exception):
+    pass
+
+
+KINDS = ("Pawn", "Knight", "Bishop", "Rook", "Queen", "King")
+CTOR_KIND = {"board::Piece::rook": "Rook", "board::Piece::queen": "Queen", "board::Piece::bishop": "Bishop",
+             "board::Piece::knight": "Knight", "board::Piece::pawn": "Pawn", "board::Piece::king": "King"}
+
+
+def _aval(e, m):
+    """Concrete value of an (erased) expression for one instantiation m = {f, comps: {expr: int}, C:
+    value of the colour parameter, color: its local, is_cur(e), state: 'empty' | 'boundary' |
+    (colour, kind)}.  Enum values are variant names.  Raises Undecided."""
+    from wa.mir import fold_binop
+    f = m["f"]
+    if e in m["comps"]:
+        return m["comps"][e]
+    k = e[0]
+    if k == "const":
+        return e[1]
+    if k == "arg" and e[1] == m["color"]:
+        return m["C"]
+    if k == "agg" and not e[3] and e[2] and e[1] not in ("tuple", "array", "closure"):
+        return e[2]
+    if m["is_cur"](e):
+        return ("square", m["state"])
+    if k == "un" and e[1] == "Not":
+        v = _aval(e[2], m)
+        if isinstance(v, bool):
+            return not v
+        raise Undecided(e)
+    if k == "un" and e[1] == "Neg":
+        return -_aval(e[2], m)
+    if k == "bin":
+        x, y = _aval(e[2], m), _aval(e[3], m)
+        op = e[1].replace("WithOverflow", "")
+        if op in ("BitAnd", "BitOr") and isinstance(x, bool) and isinstance(y, bool):
+            return (x and y) if op == "BitAnd" else (x or y)
+        if isinstance(x, tuple) or isinstance(y, tuple):
+            if op in ("Eq", "Ne"):
+                return (x == y) == (op == "Eq")
+            raise Undecided(e)
+        r = fold_binop(op, x, y)
+        if r is None:
+            raise Undecided(e)
+        return r
+    if k == "call":
+        name = e[1]
+        if name == OPPOSITE:
+            return {"White": "Black", "Black": "White"}[_aval(e[2][0], m)]
+        if name in CTOR_KIND:
+            return ("piece", _aval(e[2][0], m), CTOR_KIND[name])
+        if name in ("board::Square::is_empty", "board::Square::is_color", "board::Square::is_empty_or_color"):
+            sqv = _aval(e[2][0], m)
+            if not (isinstance(sqv, tuple) and sqv[0] == "square"):
+                raise Undecided(e)
+            stt = sqv[1]
+            if name.endswith("is_empty"):
+                return stt == "empty"
+            c = _aval(e[2][1], m)
+            isc = isinstance(stt, tuple) and stt[0] == c
+            return isc if name.endswith("is_color") else (isc or stt == "empty")
+        if name == SQ_EQ:
+            sqv, pv = _aval(e[2][0], m), _aval(e[2][1], m)
+            if isinstance(sqv, tuple) and sqv[0] == "square" and isinstance(pv, tuple) and pv[0] == "piece":
+                return sqv[1] == (pv[1], pv[2])
+            raise Undecided(e)
+        raise Undecided(e)
+    if k == "discr":
+        v = _aval(e[1], m)
+        if isinstance(v, tuple) and v[0] == "square":
+            names = f.enum_variants("board::Square")
+            return names["Empty"] if v[1] == "empty" else names["Boundary"] if v[1] == "boundary" else names["Full"]
+        if isinstance(v, str):
+            for ty in ("board::PieceColor", "board::PieceKind"):
+                names = f.enum_variants(ty)
+                if v in names and (e[2] is None or ty in str(e[2])):
+                    return names[v]
+        raise Undecided(e)
+    if k == "field":
+        base = e[1]
+        # (S as Full).0 is the piece on the square
+        if e[2] in ("color", "kind") and base[0] == "field" and base[2] == "0" and base[1][0] == "downcast" and base[1][2] == "Full":
+            sqv = _aval(base[1][1], m)
+            if isinstance(sqv, tuple) and sqv[0] == "square" and isinstance(sqv[1], tuple):
+                return sqv[1][0] if e[2] == "color" else sqv[1][1]
+            raise Undecided(e)
+        v = _aval(base, m)
+        if isinstance(v, tuple) and v and v[0] == "piece" and e[2] in ("color", "kind"):
+            return v[1] if e[2] == "color" else v[2]
+        raise Undecided(e)
+    raise Undecided(e)
+
+
+def _path_feasible(p, m):
+    for c in p.conds:
+        d = erase(c[0])
+        v = _aval(d, m)
+        if isinstance(v, bool):
+            v = int(v)
+        if isinstance(v, (tuple, str)):
+            raise Undecided(d)
+        dd, vals, oth, listed = c
+        if not (v in vals or (oth and v not in listed)):
+            return False
+    return True
+
+
+def class_answers(f, T, b, ex, h, body_, tab, item, loops, board, sq):
+    """For a loop over an offset table: per offset (dr, dc), which blockers make the function answer
+    `true` in that iteration: {(dr, dc): frozenset of ('attacker' | 'defender', kind)}, whether the
+    offset is walked as a ray, and the RayWalk (or None).  Decided by instantiating the iteration's
+    symbolic paths for every offset, both values of the colour parameter and every blocker (off board,
+    or one of the 12 pieces; for a single probe also an empty square): exactly one path is feasible
+    and it either returns true or goes on.  Works for `square == Piece::rook(attacker)` chains and for
+    structural `match`es on the blocker alike.  Raises Undecided / ShapeNotRecognised."""
+    origin = (erase(("field", ("arg", sq), "0")), erase(("field", ("arg", sq), "1")))
+    comp = [erase(("field", item, "0")), erase(("field", item, "1"))]
+    inner = [(h2, b2) for h2, b2 in loops.items() if b2 < body_]
+    rw = None
+    if len(inner) == 1:
+        rw = RayWalk(f, b, ex, h, item, inner[0][0], inner[0][1], board, origin)
+        paths, is_cur, states = rw.exits, rw.cur, ["boundary"]
+    elif not inner:
+        # one iteration, from the first block that has the table item
+        start = None
+        for x in body_:
+            t = b.term(x)
+            if t["k"] == "switch":
+                d = ex.switch_discr(x)
+                if d[0] == "discr" and d[1][0] == "call" and d[1][1].endswith("::next") and ("field", ("downcast", d[1], "Some"), "0") == item:
+                    start = next((tg for v, tg in t["cases"] if v == 1), None)
+        if start is None:
+            raise ShapeNotRecognised("table loop without a Some(item) edge")
+        from wa.symex import SymEx
+        sx = SymEx(f)
+        paths = sx.run(b, start, {}, stop={h2 for h2, b2 in loops.items() if h in b2}, fallback=lambda l: ex.local(l, (start, 0)))
+        probe = (_lin_of({origin[0]: 1, comp[0]: 1}), _lin_of({origin[1]: 1, comp[1]: 1}))
+        is_cur = lambda e: square_lin(e, board) == probe
+        states = ["empty", "boundary"]
+    else:
+        raise ShapeNotRecognised("%d loops inside a table loop" % len(inner))
+    states = states + [(c, k) for c in ("White", "Black") for k in KINDS]
+    out = {}
+    for (dr, dc) in sorted(tab):
+        per_c = []
+        for C in ("White", "Black"):
+            attacker = C if T.polarity == "attacker" else {"White": "Black", "Black": "White"}[C]
+            trues = set()
+            for stt in states:
+                m = {"f": f, "comps": {comp[0]: dr, comp[1]: dc}, "C": C, "color": T.color, "is_cur": is_cur, "state": stt}
+                feas = [p for p in paths if _path_feasible(p, m)]
+                if len(feas) != 1:
+                    raise Undecided(("det", (dr, dc), C, stt, len(feas)))
+                p = feas[0]
+                if p.end == "return" and p.ret == ("const", True):
+                    trues.add(("attacker" if isinstance(stt, tuple) and stt[0] == attacker else "defender" if isinstance(stt, tuple) else stt, stt[1] if isinstance(stt, tuple) else "-"))
+                elif p.end == "return":
+                    raise Undecided(("early-answer", (dr, dc), C, stt))
+            per_c.append(frozenset(trues))
+        if per_c[0] != per_c[1]:
+            raise Undecided(("colour-dependent", (dr, dc)))
+        out[(dr, dc)] = per_c[0]
+    return out, rw
+
+
 def r6_2(ctx):
     """Per attack class: direction/offset table, attacker kinds, attacker colour, pawn rows."""
     f = ctx.facts
-    b = xbody(f, ICC)
-    ctx.note_fn(ICC)
+    T = attack_test(f)
+    b = xbody(f, T.name)
+    ctx.note_fn(T.name)
     ex = Exprs(b)
     board, color, sq = _params(b)
-    want = [("orthogonal", chess.ROOK_DIRS, {"rook", "queen"}), ("diagonal", chess.BISHOP_DIRS, {"bishop", "queen"}), ("knight", chess.KNIGHT_OFFSETS, {"knight"})]
+    want = [("orthogonal", chess.ROOK_DIRS, {"Rook", "Queen"}, True), ("diagonal", chess.BISHOP_DIRS, {"Bishop", "Queen"}, True),
+            ("knight", chess.KNIGHT_OFFSETS, {"Knight"}, False)]
     tl = table_loops(b, ex)
     loops = b.loops()
+    # per offset of every table loop: who answers `true` from there, and is the offset walked as a ray
+    per_dir = {}
     found = {}
-    for h, (body_, tab, item) in tl.items():
+    for h, (body_, tab, item) in sorted(tl.items()):
         inner = set()
         for h2, b2 in loops.items():
             if b2 < body_:
                 inner |= b2
         tests = _piece_tests(b, ex, body_ - inner)
-        kinds = {k for _, k, _, _ in tests}
-        name = next((n for n, t, ks in want if t == tab), None)
-        found[name or "table@%d" % h] = (h, tab, kinds, tests)
-    opp = ("call", "board::PieceColor::opposite", (("arg", color),), None)
-    for name, tab, ks in want:
-        if name not in found:
-            ctx.ob("is_check_cords:%s:table" % name, False, b.file, "no loop over the %s offset table %s" % (name, sorted(tab)))
+        name = next((n for n, t, ks, w in want if t == tab), None) or "table@%d" % h
+        found[name] = (h, tab, {k for _, k, _, _ in tests}, tests)
+        try:
+            ans, rw = class_answers(f, T, b, ex, h, body_, tab, item, loops, board, sq)
+            why = None
+        except (Undecided, ShapeNotRecognised) as e:
+            ans, rw, why = None, None, "the answer of an iteration is not a function of (offset, colour, blocker): %s" % (
+                show_expr(e.args[0], b)[:100] if e.args and isinstance(e.args[0], tuple) and e.args[0] and isinstance(e.args[0][0], str) and e.args[0][0] not in ("det", "early-answer", "colour-dependent") else str(e.args[0] if e.args else e)[:120])
+        for d in tab:
+            per_dir.setdefault(d, []).append((h, bool(inner), ans.get(d) if ans is not None else None, why))
+    for name, tab, ks, walked in want:
+        entries = {d: per_dir.get(d, []) for d in tab}
+        missing = sorted(d for d, es in entries.items() if not es)
+        dup = sorted(d for d, es in entries.items() if len(es) > 1)
+        shape = sorted(d for d, es in entries.items() if es and es[0][1] != walked)
+        hs = sorted({es[0][0] for es in entries.values() if es})
+        where = b.where(b.term_loc(hs[0])) if hs else b.file
+        ctx.ob("is_check_cords:%s:table" % name, not missing and not dup and not shape, where,
+               "the %s offsets %s are each %s exactly once%s" % (name, sorted(tab), "walked as a ray" if walked else "probed once", "" if not (missing or dup or shape) else
+                                                                   ": missing %s, repeated %s, %s %s" % (missing, dup, "not walked" if walked else "walked", shape)))
+        if missing:
             continue
-        h, t, kinds, tests = found[name]
-        ctx.ob("is_check_cords:%s:attackers" % name, kinds == ks, b.where(b.term_loc(h)),
-               "squares reached along %s offsets are compared with %s; the rules say %s" % (name, sorted(kinds), sorted(ks)))
-        for s, k, c, sqe in tests:
-            ctx.ob("is_check_cords:%s:%s:enemy-colour" % (name, k), c == opp, b.where(b.term_loc(s)), "attacker colour is `%s`; must be the opposite of the defender" % show_expr(c, b))
-    extra = [n for n in found if n.startswith("table@")]
-    for n in extra:
-        h, t, kinds, tests = found[n]
-        ctx.ob("is_check_cords:unknown-offset-table@%s" % sorted(t)[:2], False, b.where(b.term_loc(h)),
-               "loop over offsets %s (compared with %s) is none of rook/bishop/knight movement" % (sorted(t), sorted(kinds)))
+        und = [es[0][3] for es in entries.values() if es[0][2] is None]
+        if und:
+            ctx.ob("is_check_cords:%s:attackers" % name, False, where, und[0], reason="shape-not-recognised")
+            continue
+        kinds = {d: {k for rel, k in es[0][2]} for d, es in entries.items()}
+        badk = {d: sorted(v) for d, v in kinds.items() if v != ks}
+        ctx.ob("is_check_cords:%s:attackers" % name, not badk, where,
+               "a blocker reached along a %s offset answers `attacked` exactly when it is one of %s%s" % (name, sorted(ks), "" if not badk else "; NOT so for offsets %s" % badk))
+        rels = {rel for es in entries.values() for rel, k in es[0][2]}
+        ctx.ob("is_check_cords:%s:enemy-colour" % name, rels == {"attacker"}, where, "only pieces of the attacking colour count (found: %s)" % sorted(rels))
+    opp = T.attacker_expr()
+    known_dirs = set().union(*(t for _, t, _, _ in want))
+    for d in sorted(set(per_dir) - known_dirs):
+        h = per_dir[d][0][0]
+        ctx.ob("is_check_cords:unknown-offset@%s" % (d,), False, b.where(b.term_loc(h)),
+               "offset %s of a table loop is none of rook/bishop/knight movement" % (d,))
     # pawns: attacked from the two forward diagonals as seen from the attacker
     colours = f.enum_variant_by_discr("board::PieceColor")
     allb = set(b.normal)
@@ -266,7 +523,7 @@ def r6_2(ctx):
                 if len(poss) != 1 or le is None or le[0] != {("field", sqp, "0"): 1}:
                     okr = False
                     continue
-                defender = next(iter(poss))
+                defender = next(iter({"White", "Black"} - T.attackers(poss)))
                 # a White defender is attacked by black pawns standing one row closer to rank 8 (row - 1)
                 okr = okr and le[1] == chess.PAWN[defender]["dir"]
             ctx.ob("is_check_cords:pawn:row#%d" % len(cols), okr, b.where(b.term_loc(s)),
@@ -307,7 +564,9 @@ def r6_2(ctx):
         seen_keys.add("is_check_cords:%s:hit-answers-true" % k)
         ctx.ob("is_check_cords:%s:hit-answers-true" % k, used > 0 and not bad, b.where(b.term_loc(s)),
                "when the square equals the attacking %s the answer is `true` at once (paths deciding on it: %d, of which %d do not answer true)" % (k, used, bad))
-    ctx.floor("attacker comparisons followed to the answer", nhit, 4)
+    # (the table classes are decided by class_answers whichever way they compare; this floor only says
+    # that the direct comparisons, at least the pawn probes, were followed)
+    ctx.floor("attacker comparisons followed to the answer", nhit, 1)
 
 
 from wa.linear import linear
@@ -405,6 +664,24 @@ class RayWalk:
             return True
         return self.R is not None and square_lin(e, self.board_arg) == (_lin_of({("sym", self.R): 1}), _lin_of({("sym", self.C): 1}))
 
+    def only_cur(self, d):
+        """Does the expression depend on the walk state through the current square only?"""
+        if self.cur(d):
+            return True
+        if not isinstance(d, tuple) or not d:
+            return True
+        if d[0] == "sym":
+            return False
+        for x in d[1:]:
+            if isinstance(x, tuple) and x and isinstance(x[0], str):
+                if not self.only_cur(x):
+                    return False
+            elif isinstance(x, tuple):
+                for y in x:
+                    if isinstance(y, tuple) and y and isinstance(y[0], str) and not self.only_cur(y):
+                        return False
+        return True
+
     def cur_point(self, r, c):
         return self.R is not None and elinear(r) == _lin_of({("sym", self.R): 1}) and elinear(c) == _lin_of({("sym", self.C): 1})
 
@@ -427,7 +704,7 @@ def r6_3(ctx):
     """Ray walk shape: each slider ray advances by the direction while the square just loaded is
     empty, and the square compared with the attackers is the one the walk stopped on."""
     f = ctx.facts
-    b = xbody(f, ICC)
+    b = xbody(f, attack_test(f).name)
     ex = Exprs(b)
     board, color, sq = _params(b)
     tl = table_loops(b, ex)
@@ -436,10 +713,10 @@ def r6_3(ctx):
     origin = (erase(("field", ("arg", sq), "0")), erase(("field", ("arg", sq), "1")))
     for h, (body_, tab, item) in sorted(tl.items()):
         inner = [(h2, b2) for h2, b2 in loops.items() if b2 < body_]
-        is_slider = tab in (chess.ROOK_DIRS, chess.BISHOP_DIRS)
+        # a table whose offsets are walked (an inner loop) is a ray table; which offsets must be walked
+        # and which probed once is R6.2's business (per-offset decision table)
+        is_slider = bool(inner)
         if not is_slider:
-            # knight-like: one probe per offset, no walk
-            ctx.ob("is_check_cords:offsets@%d:single-probe" % len(tab), not inner, b.where(b.term_loc(h)), "%d-offset table is probed once per offset (no walk)" % len(tab))
             tests = _piece_tests(b, ex, body_)
             for s, k, c, sqe in tests:
                 sl = square_lin(sqe, board)
@@ -447,7 +724,7 @@ def r6_3(ctx):
                 ctx.ob("is_check_cords:%s:probe-square" % k, ok, b.where(b.term_loc(s)), "probes board[square.0 + dr][square.1 + dc]: `%s`" % show_expr(sqe, b)[:110])
             continue
         n += 1
-        name = "orthogonal" if tab == chess.ROOK_DIRS else "diagonal"
+        name = "orthogonal" if tab == chess.ROOK_DIRS else "diagonal" if tab == chess.BISHOP_DIRS else "rays@%d" % len(tab)
         if len(inner) != 1:
             ctx.ob("is_check_cords:%s:ray-walk" % name, False, b.where(b.term_loc(h)), "expected one inner walking loop, found %d" % len(inner), reason="shape-not-recognised")
             continue
@@ -461,22 +738,23 @@ def r6_3(ctx):
         for p in rw.exits:
             wc = rw.walk_conds(p)
             ok_cont = ok_cont and bool(wc) and wc[0] == ("empty", False)
-        # the square compared with the attackers is the one the walk stopped on
+        # what is compared with the attackers after the walk is the square it stopped on: every later
+        # decision that depends on the walk state speaks about that square only
         ncmp = 0
         ok_cmp = True
         for p in rw.exits:
             for ev in p.events:
                 if ev[0] == "call" and ev[2] == SQ_EQ:
-                    ncmp += 1
                     ok_cmp = ok_cmp and rw.cur(ev[3][0])
             for d, tr in rw.walk_conds(p)[1:]:
-                ok_cmp = ok_cmp and isinstance(d, tuple) and d[0] == "call" and d[1] == SQ_EQ
+                ncmp += 1
+                ok_cmp = ok_cmp and isinstance(d, tuple) and rw.only_cur(d)
         ok_cmp = ok_cmp and ncmp > 0
         ok = ok_cont and rw.ok_step and rw.ok_init and rw.ok_inv and ok_cmp
         ctx.ob("is_check_cords:%s:ray-walk" % name, ok, b.where(b.term_loc(h2)),
                "walk continues exactly on empty squares: %s; steps by (dr, dc) once per iteration, row<-dr, col<-dc: %s; starts one step from the square: %s; the square tested is the one at the walk position: %s; compares the square it stopped on: %s" % (
                    ok_cont, rw.ok_step, rw.ok_init, rw.ok_inv, ok_cmp))
-    ctx.floor("slider ray loops", n, 2)
+    ctx.floor("slider ray loops", n, 1)
 
 
 def _strip_cd(e):
@@ -538,7 +816,7 @@ def r6_4(ctx):
     """King class by finite instantiation: for every pair (enemy king square, probed square) on the
     board the king-class decision equals 'Chebyshev distance <= 1'."""
     f = ctx.facts
-    b = xbody(f, ICC)
+    b = xbody(f, attack_test(f).name)
     ex = Exprs(b)
     board, color, sq = _params(b)
     ds = [(loc, e) for loc, e in deciders(b, ex) if any(x[0] == "field" and x[2] in KING_FIELDS for x in data_slice(ex, e))]
@@ -616,6 +894,7 @@ def r2_5(ctx):
     kinds = f.enum_variant_by_discr("board::PieceKind")
     colours = f.enum_variant_by_discr("board::PieceColor")
     n = 0
+    castling_fns = set()
     for site in an.sites:
         b, ex, L = site.b, site.ex, site.L
         mp = [(loc, ev) for loc, evs in site.events.items() for ev in evs if ev[0] == "call" and ev[1] == successor.MOVE_PIECE and ev[2] == 0]
@@ -646,32 +925,12 @@ def r2_5(ctx):
                 for loc, v in ws:
                     ctx.ob("%s:%s:value" % (site.name, field), strip_refs(v) == to, b.where(loc), "cached king square is written with the move's destination")
         elif len(mp) == 2:
-            # castling: constant destination per the oracle, and the king is moved from the parent's square
-            # to it.  Decided per mover colour on the body specialised to `board.to_move == colour`, so
-            # that a destination built from a rank selected by `match board.to_move` is a constant.
-            from wa.cond import specialise
-            bps = [i for i in range(1, b.arg_count + 1) if b.local_ty(i) == "&board::BoardState"]
-            tm = ("field", ("deref", ("arg", bps[0])), "to_move") if len(bps) == 1 else None
-            for colour in ("White", "Black"):
-                if tm is not None:
-                    b2, ex2, _ref = specialise(b, {tm: ("eq", colour)}, {tm: colours})
-                else:
-                    b2, ex2 = b, ex
-                if site.bb not in b2.reachable:
-                    continue
-                for field, ws in sorted(writes.items()):
-                    for loc, v in ws:
-                        if loc[0] not in b2.reachable or not (loc[0] == site.bb or b2.reaches(site.bb, loc[0])):
-                            continue
-                        st = b.stmts(loc[0])[loc[1]]
-                        v = strip_refs(ex2.rvalue(st["rv"], loc))
-                        ok = v[0] == "agg" and all(x[0] == "const" for x in v[3])
-                        dest = (v[3][0][1], v[3][1][1]) if ok else None
-                        own = field.startswith(colour.lower())
-                        okd = own and dest in [chess.sq(c[1]) for r, c in chess.CASTLING.items() if chess.RIGHT_COLOUR[r] == colour]
-                        n += 1
-                        ctx.ob("%s:%s:castling-destination" % (site.name, field), bool(okd), b.where(loc),
-                               "castling by %s stores %s in %s" % (colour, chess.name(dest) if dest and 2 <= dest[0] <= 9 and 2 <= dest[1] <= 9 else dest, field))
+            castling_fns.add(b.name)
+    if castling_fns:
+        # castling: the oracle's destination in the mover's own field, decided per side to move and per
+        # castling right on the symbolically executed generator (rules/castling.py: castling_records)
+        from . import castling
+        n += castling.king_cache_of_castling(ctx)
     ctx.floor("king-cache obligations", n, 4)
 
 
@@ -682,7 +941,7 @@ def r6_5(ctx):
     sentinel ring argument, which is not computed.)"""
     from wa.exprint import expr_interval
     f = ctx.facts
-    targets = [ICC, "move_generation::knight_moves", "move_generation::king_moves", "move_generation::pawn_moves", "move_generation::pawn_moves_en_passant"]
+    targets = [attack_test(f).name, "move_generation::knight_moves", "move_generation::king_moves", "move_generation::pawn_moves", "move_generation::pawn_moves_en_passant"]
     n = nd = 0
     for fn in targets:
         b = xbody(f, fn)
@@ -759,7 +1018,7 @@ def r6_6(ctx):
     true) is reached only after the orthogonal, diagonal and knight loops and the pawn probe have
     all been passed."""
     f = ctx.facts
-    b = xbody(f, ICC)
+    b = xbody(f, attack_test(f).name)
     ex = Exprs(b)
     board, color, sq = _params(b)
     tl = table_loops(b, ex)
@@ -776,17 +1035,21 @@ def r6_6(ctx):
                 finals.append(loc)
     ctx.floor("non-true results of is_check_cords", len(finals), 1)
     names = {}
-    for h, (body_, tab, item) in tl.items():
-        nm = "orthogonal" if tab == chess.ROOK_DIRS else "diagonal" if tab == chess.BISHOP_DIRS else "knight" if tab == chess.KNIGHT_OFFSETS else "table@%d" % h
-        names[nm] = h
+    classes = (("orthogonal", chess.ROOK_DIRS), ("diagonal", chess.BISHOP_DIRS), ("knight", chess.KNIGHT_OFFSETS))
+    for nm, dirs in classes:
+        # the loops that cover the class's offsets (one loop per class, one fused loop, or several)
+        hs = sorted(h for h, (body_, tab, item) in tl.items() if tab & dirs)
+        covered = set().union(*[tl[h][1] for h in hs]) if hs else set()
+        if hs and dirs <= covered:
+            names[nm] = hs
     if ptests:
         first = min((t[0] for t in ptests), key=lambda x: len([y for y in b.normal if b.node_dominates(y, x)]))
-        names["pawn"] = first
+        names["pawn"] = [first]
     for nm in ("orthogonal", "diagonal", "knight", "pawn"):
         if nm not in names:
             ctx.ob("is_check_cords:%s:evaluated" % nm, False, b.file, "no %s attack test found" % nm)
             continue
-        blk = names[nm]
-        bad = [loc for loc in finals if not b.node_dominates(blk, loc[0])]
-        ctx.ob("is_check_cords:%s:always-evaluated" % nm, not bad, b.where(bad[0]) if bad else b.where(b.term_loc(blk)),
+        blks = names[nm]
+        bad = [loc for loc in finals for blk in blks if not b.node_dominates(blk, loc[0])]
+        ctx.ob("is_check_cords:%s:always-evaluated" % nm, not bad, b.where(bad[0]) if bad else b.where(b.term_loc(blks[0])),
                "the %s attack test lies on every path to a 'not attacked' answer%s" % (nm, "" if not bad else ": NOT so — it can be skipped (guarded by an extra condition), so some attacks of this kind are never seen"))
